@@ -119,6 +119,10 @@ def run(chk, replay=None):
         gen = (CanonicalAmplitudeNameGenerator if canonical else HelicityAmplitudeNameGenerator)(reaction)
         for bi, beh in enumerate(behs):
             builder = ampform.get_builder(reaction)
+            if bi % 3 == 2:
+                # every third history with helicity couplings instead of shared coefficients: which lineshape multiplies which chain
+                # does not depend on how the chain's constant factor is named
+                builder.config.use_helicity_couplings = True
             sel = builder.dynamics
             decays = list(sel)
             names = sorted({d.parent.particle.name for d in decays})
